@@ -33,12 +33,14 @@ EXPECT = {
     'c07c_pending_miscount_on_enqueue_death': ['C07', 'C08'],
     'c01d_is_child_by_recycled_ident': ['C01', 'C04', 'C16'],
     'c12d_no_end_marker_on_connection_closed': ['C12', 'C06'],
+    'c17d_server_side_wait_inverts_dead_flag': ['C17', 'C09', 'C04'],
     'c20d_server_side_pid_not_set_after_start': ['C20', 'C12'],
     'c10d_header_topup_loop_without_eof_check': ['C10', 'C11'],
 }
 # changes that are harmless on the current HEAD by construction (a later fix: commit made the trigger unreachable)
 NEUTRALISED = {
     'c11_getpeername_log': 'the ENOTCONN it provokes is caught since /repo b29977d; the check correctly stays quiet',
+    'c20d_server_side_pid_not_set_after_start': 'it exposed a genuine defect of the same shape (the window exists without the change too); since /repo 6a498ac the server-side pid is read from the spawned Process object, which makes the removed assignment redundant; the checks correctly stay quiet',
 }
 
 
